@@ -361,6 +361,14 @@ func (t *Thread) where() string {
 	for {
 		f, more := fr.Next()
 		n := f.Function
+		if n != "" && strings.Contains(f.File, "zz_verif_") {
+			// a frame of the harness itself: its closure names differ between the exploration and the replay entry points and say
+			// nothing about the code under test
+			if len(fs) == 0 {
+				fs = append(fs, "harness")
+			}
+			break
+		}
 		if n != "" && !strings.Contains(n, "/zzverif/") && !strings.HasPrefix(n, "runtime.") {
 			if i := strings.LastIndexByte(n, '/'); i >= 0 {
 				n = n[i+1:]
